@@ -2,6 +2,7 @@ import Driver.Util
 import ImmuModel.Tx.Concrete
 import ImmuModel.Tx.Entry
 import ImmuModel.Store.Proofs
+import ImmuModel.Store.Prover
 namespace Driver.C01
 open ImmuModel ImmuModel.Tx ImmuModel.Store
 
@@ -41,6 +42,42 @@ def lap? (s : String) : Option (Option (LinearAdvanceProof Digest)) :=
   | _ => none
 
 def b2s (b : Bool) : String := if b then "true" else "false"
+
+def fmtD (ds : List Digest) : String := fmtCsv (ds.map (·.val))
+
+def fmtHdr : Option (TxHeader Digest) → String
+  | none => "nil"
+  | some h => s!"{h.id}:{h.ts}:{h.blTxID}:{hexD h.blRoot}:{hexD h.prevAlh}:{h.version}:{Bytes.toHexTok h.md}:{h.nentries}:{hexD h.eh}"
+
+def fmtLp : Option (LinearProof Digest) → String
+  | none => "nil"
+  | some p => s!"{p.sourceTxID}:{p.targetTxID}:{fmtD p.terms}"
+
+def fmtLap : Option (LinearAdvanceProof Digest) → String
+  | none => "nil"
+  | some p =>
+    let ips := if p.inclusionProofs.isEmpty then "." else ";".intercalate (p.inclusionProofs.map fmtD)
+    s!"{fmtD p.linearProofTerms}:{ips}"
+
+/-- stateful part: the history the real store has built (prover-side correspondence) -/
+structure St where
+  ps : ProverState Digest := ⟨[], [], Merkle.AHT.empty⟩
+
+def stepSt (st : St) : List String → St × String
+  | ["hist.new"] => ({ ps := ⟨[], [], Merkle.AHT.empty⟩ }, "ok")
+  | ["hist.add", h] => match hdr? h with
+    | some (some h) => match alh shaHs h with
+      | some a => match Merkle.AHT.append shaHs.mh st.ps.aht (shaHs.enc a) with
+        | some t => ({ ps := ⟨st.ps.hdrs ++ [h], st.ps.alhs ++ [a], t⟩ }, hexD a)
+        | none => (st, "err:internal")
+      | none => (st, "panic")
+    | _ => (st, "bad-op")
+  | ["dproof", s, t] => match s.toNat?, t.toNat? with
+    | some s, some t => match dualProof shaHs st.ps s t with
+      | some p => (st, s!"{fmtHdr p.sourceTxHeader} {fmtHdr p.targetTxHeader} {fmtD p.inclusionProof} {fmtD p.consistencyProof} {hexD p.targetBlTxAlh} {fmtD p.lastInclusionProof} {fmtLp p.linearProof} {fmtLap p.linearAdvanceProof}")
+      | none => (st, "err")
+    | _, _ => (st, "bad-op")
+  | _ => (st, "bad-op")
 
 def step : List String → String
   | ["alh", h] => match hdr? h with
